@@ -115,7 +115,76 @@ def spec_table():
         T["bignKeypairGen%d" % l] = ((lambda c, n=n: ("tape", n)), keygen)
     add_bpki(T)
     add_other_sign(T)
+    add_bake(T)
     return T
+
+
+# ---- bake drivers (RunA / RunB over an in-memory channel): the password (BPACE) or the long-term private key (BMQV, BSTS) is the secret.
+# The peer's messages come from an honest step-by-step run made beforehand with the same tapes (cached: no library call happens between
+# the twins); the party's certificate follows from its private key.  ':auth' variants alter the last incoming message (error exit).
+_BAKE = {}
+
+
+def add_bake(T):
+    c04 = __import__("props.c04", fromlist=["x"])
+    plain = {"rej": [], "u": "rnd", "tail": 7}
+
+    def env_for(x, c, proto, role, l, sec, long_cert):
+        cc = {"proto": proto, "kca": True, "kcb": True, "l": l, "seed": c["seed"], "ha": [None, 0, 5, 33][c["L"] % 4], "hb": [7, None, 64, 0][c["L"] % 4],
+              "na": 5 + (520 if long_cert else 0), "nb": 3 + (520 if long_cert else 0), "pw": len(sec), "ta": plain, "tb": plain}
+        env = c04.mk_env(x, cc)
+        if proto == "BPACE":
+            env["pwd"] = sec
+        else:
+            M = env["M"]
+            d = int.from_bytes(sec, "little")
+            env["d" + role] = d
+            env["cert" + role] = expand(c["seed"] + "n" + role, cc["n" + role]) + RB.point_to_octets(M, RB.pubkey_calc(M, d))
+        return env
+
+    for proto in ("BMQV", "BSTS", "BPACE"):
+        for role in "ab":
+            for variant in ("", ":auth", ":long"):
+                if variant == ":long" and proto != "BSTS":
+                    continue
+                name = "bake%sRun%s%s" % (proto, role.upper(), variant)
+
+                def lvl(c):
+                    return (128, 192, 256)[c["L"] % 3]
+
+                def prep(x, c, secrets, proto=proto, role=role, variant=variant, name=name):
+                    if len(_BAKE) > 32:
+                        _BAKE.clear()
+                    for sec in secrets:
+                        k = (name, c["seed"], c["L"], sec)
+                        if k in _BAKE:
+                            continue
+                        x.reset()
+                        env = env_for(x, c, proto, role, lvl(c), sec, variant == ":long")
+                        res = c04.do_run(x, env)
+                        if res["fail"]:
+                            raise Fail("honest %s run failed while preparing the transcript: %s" % (proto, res["fail"],))
+                        _BAKE[k] = res["msgs"]
+
+                def build(x, c, S, proto=proto, role=role, variant=variant, name=name):
+                    sec = S.read()
+                    env = env_for(x, c, proto, role, lvl(c), sec, variant == ":long")
+                    msgs = _BAKE[(name, c["seed"], c["L"], sec)]
+                    tamper = None
+                    if variant == ":auth":
+                        snd = c04.senders(env)
+                        inc = [i for i in range(len(msgs)) if snd[i] != role]
+                        i = inc[-1]
+                        m = bytearray(msgs[i]); m[-1] ^= 1          # the confirmation tag / last octet of the last incoming message
+                        tamper = (i, bytes(m))
+                    fn, args, CH, key, outs, ninc, pool = c04.driver_args(x, env, role, msgs, tamper, secret=S)
+                    return fn, args
+                if proto == "BPACE":
+                    sl = (lambda c: 6 + c["L"] % 20)
+                else:
+                    def sl(c, lvl=lvl):
+                        return ("d", lvl(c) // 4)
+                T[name] = (sl, build, "ERR_AUTH" if variant == ":auth" else None, prep)
 
 
 # ---- bpki containers: the password, the key / share and the PBKDF2 key derived from the password are the secrets
@@ -282,6 +351,8 @@ def run_wipe(ctx, c):
     spec = TABLE[name]
     s1, s2 = secrets_for(c, spec)
     expect = spec[2] if len(spec) > 2 else None
+    if len(spec) > 3 and spec[3]:
+        spec[3](x, c, (s1, s2))
     # Both twins are forked from one and the same parent state (identical heap layout: what memWipe writes depends on a static counter
     # and on block addresses).  The arguments are built twice, once per secret; the second set is then copied over the first inside the
     # executor, so that the second child is called with the very same addresses and only the secret-derived contents differ.
@@ -319,6 +390,8 @@ def run_wipe(ctx, c):
     if not failed:
         if expect is None and r1 != 0:
             raise Fail("%s returned %s on a valid call" % (name, ename(r1)))
+        if expect == "any_error" and r1 == 0:
+            raise Fail("%s returned ERR_OK where an error exit was constructed" % name)
         if expect not in (None, "any_error") and r1 != E[expect]:
             raise Fail("%s returned %s, expected %s" % (name, ename(r1), expect))
     # oracle 1: twin streams identical
